@@ -280,6 +280,7 @@ class Run:
         self.held0_obj = None
         self.held0_snap = None
         self.steps = []
+        self.inferred = False   # True when accept decisions had to be inferred (no accept_metropolis events)
         self.tail = []          # events after the last iteration (the final print)
 
 
@@ -349,13 +350,24 @@ def parse_run(events, start=0):
         st.prop_draws = list(st.draws)
         c = need("chi2")
         st.test, st.test_snap, st.chi2_new = c[1], c[2], c[3]
-        need("accept_begin")
-        st.accept_draws = []
-        while i < n and events[i][0] == "draw":
-            st.accept_draws.append(events[i])
-            i += 1
-        a = need("accept")
-        st.e0, st.e1, st.accepted = a[1], a[2], bool(a[3])
+        if i < n and events[i][0] == "accept_begin":
+            need("accept_begin")
+            st.accept_draws = []
+            while i < n and events[i][0] == "draw":
+                st.accept_draws.append(events[i])
+                i += 1
+            a = need("accept")
+            st.e0, st.e1, st.accepted = a[1], a[2], bool(a[3])
+        else:
+            # the loop did not go through the module-level `accept_metropolis` (decision inlined — seed C09-5):
+            # the scalar `rand` draws that follow belong to the decision; the decision itself and the measure it
+            # was judged against are INFERRED by the oracle from what the loop does next (`oracle_run`)
+            st.accept_draws = []
+            while i < n and events[i][0] == "draw" and events[i][1] == "rand" and np.ndim(events[i][4]) == 0:
+                st.accept_draws.append(events[i])
+                i += 1
+            st.e0, st.e1, st.accepted = None, st.chi2_new, None
+            run.inferred = True
         st.draws += st.accept_draws
         st.printed = []
         while i < n and events[i][0] == "stdout" and events[i][1] != "\n":
@@ -499,6 +511,15 @@ def accept_margin(e0, e1, u):
 # ----------------------------------------------------------------------------- transition-level check
 
 def check_run(ctx, case, run, ret, n_steps, sim_type, tag="mc", whole_limit=4000):
+    if getattr(run, "inferred", False):
+        # no accept_metropolis events to hang the transitions on: the loop's structure differs from the modelled one
+        disagree(ctx, case, f"{tag}: the search does not call accept_metropolis (decisions inferred by the oracle)",
+                 "inlined", "accept_metropolis(chi2, chi2_new)")
+        return
+    return _check_run(ctx, case, run, ret, n_steps, sim_type, tag, whole_limit)
+
+
+def _check_run(ctx, case, run, ret, n_steps, sim_type, tag="mc", whole_limit=4000):
     """queue the transition-level correspondence (DESIGN §2.3) for one recorded search:
     every iteration is recomputed by the driver from the implementation's own pre-state."""
     from .common import unfbits
@@ -665,6 +686,33 @@ def oracle_run(ctx, case, run, ret, n_steps, sim_type, held0, keyprefix="search"
     since = 0          # consecutive steps without a new lowest measure
     stopped_at = None
     for k, st in enumerate(run.steps):
+        if st.accepted is None:
+            # infer the decision: the NEXT proposal (or the returned array, after the last step) is built either
+            # from this proposal (accepted) or from the configuration held before (rejected)
+            T_ = st.test_snap
+            nxt = run.steps[k + 1] if k + 1 < len(run.steps) else None
+            a = r = False
+            if nxt is None:
+                a = ret is not None and same_bits(ret, T_)
+                r = ret is not None and same_bits(ret, held)
+            elif nxt.change == 0:
+                d_ = np.asarray(nxt.prop_draws[1][4], dtype=float)
+                a, r = same_bits(nxt.test_snap, T_ + d_), same_bits(nxt.test_snap, held + d_)
+            elif nxt.change == 2:
+                a, r = same_bits(nxt.move[0][2], T_), same_bits(nxt.move[0][2], held)
+            elif nxt.change == 1 and nxt.rot is not None and np.isfinite(nxt.rot[3]).all():
+                R_ = nxt.rot[3]
+                a = close_cfg(nxt.test_snap, (T_ - T_.mean(axis=0)) @ R_ + T_.mean(axis=0))
+                r = close_cfg(nxt.test_snap, (held - held.mean(axis=0)) @ R_ + held.mean(axis=0))
+            if a and not r:
+                st.accepted = True
+            elif r and not a:
+                st.accepted = False
+            else:
+                st.accepted = bool(float(st.chi2_new) <= float(held_chi2))   # indistinguishable / unknown source
+                ctx.count("inferred-decision:ambiguous")
+            st.e0 = held_chi2
+            ctx.count("inferred-decision")
         if since >= n_steps and stopped_at is None:
             stopped_at = k
             fail("stop-late", {"step": k, "n_steps": n_steps})
